@@ -43,6 +43,7 @@ type node struct {
 	stop            chan struct{}
 	mu              sync.Mutex
 	calls           int
+	lastBody        string
 }
 
 func (n *node) Address() string { return n.name }
@@ -367,6 +368,7 @@ func hangHard(ns []*node) bool {
 
 type result struct {
 	val     string
+	body    string
 	err     error
 	elapsed time.Duration
 }
